@@ -54,7 +54,7 @@ Open(fi) ==
 
 \* converters[v](data)
 Convert ==
-  /\ Live /\ phase = "migrating" /\ fail = <<>> /\ ver \in Supported
+  /\ Live /\ phase = "migrating" /\ fail = <<>> /\ ri <= Len(file.recs) /\ ver \in Supported
   /\ LET s2 == Apply(RuleOf(ver), shape) IN
      /\ shape' = s2 /\ ver' = NextLabel(ver)
      /\ Emit(IF file.recs[ri].step
@@ -63,14 +63,14 @@ Convert ==
 
 \* version not in the table: ValueError inside the inner try
 Reject ==
-  /\ Live /\ phase = "migrating" /\ fail = <<>> /\ ver # Current /\ ver \notin Supported
+  /\ Live /\ phase = "migrating" /\ fail = <<>> /\ ri <= Len(file.recs) /\ ver # Current /\ ver \notin Supported
   /\ fail' = <<"convert", "ValueError">>
   /\ UNCHANGED <<file, ri, ver, shape, phase>>
   /\ Emit(<<>>)
 
 \* Flow.from_state(state) at the current version; then the next record, if any
 FromState ==
-  /\ Live /\ phase = "migrating" /\ fail = <<>> /\ ver = Current
+  /\ Live /\ phase = "migrating" /\ fail = <<>> /\ ri <= Len(file.recs) /\ ver = Current
   /\ LET t == file.recs[ri].t
          extra == shape \cap NotConsumedOf(t)
      IN IF extra # {} THEN /\ fail' = <<"convert", "AssertionError">> /\ UNCHANGED <<ri, ver, shape>> /\ Emit(<<>>)
